@@ -341,7 +341,7 @@ func (c *Ctx) subRef(structName string, f *types.Var, base string) string {
 	c.decl(fmt.Sprintf("(declare-fun %s_inv (Int) Int)", fn))
 	t := fmt.Sprintf("(%s %s)", fn, base)
 	key := "subfacts:" + t
-	if !c.declared[key] {
+	if !c.declared[key] && !strings.Contains(t, "q_") { // (terms under a quantifier mention bound variables: no global facts)
 		c.declared[key] = true
 		if _, ok := c.tagOf["sub:"+fn]; !ok {
 			c.tagOf["sub:"+fn] = len(c.tagOf) + 1
@@ -359,7 +359,7 @@ func (c *Ctx) elemRef(arr, idx string) string {
 	c.decl(fmt.Sprintf("(declare-fun elemref_idx (Int) %s)", c.intSort(64)))
 	t := fmt.Sprintf("(elemref %s %s)", arr, idx)
 	key := "subfacts:" + t
-	if !c.declared[key] {
+	if !c.declared[key] && !strings.Contains(t, "q_") { // (terms under a quantifier mention bound variables: no global facts)
 		c.declared[key] = true
 		c.assert(fmt.Sprintf("(and (< %s 0) (= (root %s) (root %s)) (= (elemref_arr %s) %s) (= (elemref_idx %s) %s) (= (subtag %s) 0))", t, t, arr, t, arr, t, idx, t))
 	}
